@@ -6,8 +6,18 @@ pub enum E { A, B(i32), C { x: i32, y: bool } }
 
 /// PartialEq is hand-written: `ne` is overridden and is NOT the negation of `eq` (it looks at the first field only), so that
 /// ne!(..) must really evaluate `!=` and eq!(..) `==` (Macro/RustPat.v vneb)
-#[derive(Clone, Debug)]
+#[derive(Clone)]
 pub struct S { pub a: i32, pub b: bool }
+/// Debug is hand-written too: it prints like the derived one and counts its runs (user code that a matcher must not run while it
+/// only decides: mismatch diagnostics are built when the runtime asks for them, never during the unordered scan)
+pub static S_DEBUG_RUNS: std::sync::atomic::AtomicUsize = std::sync::atomic::AtomicUsize::new(0);
+impl std::fmt::Debug for S {
+    fn fmt(&self, f: &mut std::fmt::Formatter<'_>) -> std::fmt::Result {
+        S_DEBUG_RUNS.fetch_add(1, std::sync::atomic::Ordering::SeqCst);
+        write!(f, "S {{ a: {}, b: {} }}", self.a, self.b)
+    }
+}
+pub fn s_debug_runs() -> usize { S_DEBUG_RUNS.load(std::sync::atomic::Ordering::SeqCst) }
 impl PartialEq for S {
     fn eq(&self, other: &S) -> bool { self.a == other.a && self.b == other.b }
     #[allow(clippy::partialeq_ne_impl)]
